@@ -206,6 +206,9 @@ func runC02(c *Check, w *World) {
 	checkDigitsInt(c, w, tb, "R02.4")
 	ruleHistoryIndependence(c, w, tb, ef, "R02.H", w.Funcs(OtpPath, "GenerateTOTP", "ValidateTOTP")...)
 	checkRESTEndpoints(c, w, tb, ef, "R02.REST", "/totp/generate", "/totp/validate")
+	if w.Cfg.Name == CfgWasm.Name && w.SPkgs[WasmPath] != nil {
+		ruleWasmTimeStep(c, w, tb, newIVWithTables(w, tb, ef), "R02.W", jsRegistrations(w, tb))
+	}
 	c.Floor("R02.1", 3)
 	c.Floor("R02.2", 6)
 	c.Floor("R02.3", 1)
@@ -221,8 +224,8 @@ func init() {
 			"R02.3 the period operand is in both entry points ite(P==0, 30, P) with P = param.Period (DefaultTOTPParam's when nil), and the URL builder defaults a zero period to 30; R02.4 digits/algorithm resolve identically in generation and validation, DefaultTOTPParam = {6, SHA-1, 30 s, 0}. " +
 			"The HOTP value itself is C01's subject. Not decided: instants before the epoch (outside the property), a caller-replaced TimeCounterFunc.",
 		assume:   []string{"the caller does not replace TimeCounterFunc (the property excludes it)"},
-		quick:    []Config{CfgNative},
-		thorough: []Config{CfgNative, Cfg386},
+		quick:    []Config{CfgNative, CfgWasm},
+		thorough: []Config{CfgNative, CfgWasm, Cfg386},
 		run:      runC02,
 	})
 }
